@@ -738,6 +738,10 @@ def r4_11(ctx, rc):
                 continue
             n += 1
             x = call.args[0]
+            cn0 = ctx.H.node_of(m, call)
+            if cn0:
+                # through plain copies (``t = parent; s.discard(t)``)
+                x = ctx.H.subst(x, m, cn0[0])
             key = '%s.%s(%s) in %s' % (f.value.attr, f.attr,
                                        ast.unparse(x)[:30], m.qualname)
             ok = guarded(m, x, lambda sn, call=call: sn.kind == 'leaf' and
